@@ -27,18 +27,19 @@ import (
 
 // Resp specifies the answer to one path on one host. Plain data (part of the replayable case).
 type Resp struct {
-	Status   int      `json:"status"`
-	Kind     string   `json:"kind"`                // html | text | bin | empty   (what the entity is made of)
-	Size     int      `json:"size"`                // identity entity size (html: minimum size, padded up to it)
-	BodySeed int64    `json:"body_seed"`           // same (Kind, Size, BodySeed) => identical bytes (revisit path)
-	CType    string   `json:"ctype,omitempty"`     // Content-Type header ("" = none)
-	Gzip     bool     `json:"gzip,omitempty"`      // Content-Encoding: gzip
-	Framing  string   `json:"framing"`             // cl | chunked | eof
-	Loc      string   `json:"loc,omitempty"`       // Location header: "h<i>:<path>" or raw text
-	CFHeader string   `json:"cf_header,omitempty"` // name of the cf-mitigated header as sent ("" = none), value "challenge"
-	Assets   []string `json:"assets,omitempty"`    // html: <img src> references "h<i>:<path>"
-	Links    []string `json:"links,omitempty"`     // html: <a href> references
-	Fault    string   `json:"fault,omitempty"`     // truncate | noresponse | badgzip-header | badgzip-mid | badgzip-crc
+	Status        int      `json:"status"`
+	Kind          string   `json:"kind"`                // html | text | bin | empty   (what the entity is made of)
+	Size          int      `json:"size"`                // identity entity size (html: minimum size, padded up to it)
+	BodySeed      int64    `json:"body_seed"`           // same (Kind, Size, BodySeed) => identical bytes (revisit path)
+	CType         string   `json:"ctype,omitempty"`     // Content-Type header ("" = none)
+	Gzip          bool     `json:"gzip,omitempty"`      // Content-Encoding: gzip
+	Framing       string   `json:"framing"`             // cl | chunked | eof
+	Loc           string   `json:"loc,omitempty"`       // Location header: "h<i>:<path>" or raw text
+	CFHeader      string   `json:"cf_header,omitempty"` // name of the cf-mitigated header as sent ("" = none), value "challenge"
+	Assets        []string `json:"assets,omitempty"`    // html: <img src> references "h<i>:<path>"
+	Links         []string `json:"links,omitempty"`     // html: <a href> references
+	Fault         string   `json:"fault,omitempty"`     // truncate | noresponse | badgzip-header | badgzip-mid | badgzip-crc
+	forceTruncate bool
 	// the first FailFirst attempts answer FailStatus with a small text body (-1: always)
 	FailFirst  int `json:"fail_first,omitempty"`
 	FailStatus int `json:"fail_status,omitempty"`
